@@ -18,6 +18,8 @@ package go9p
 //              enough bytes to fill that buffer, then end of stream
 //   unmount    Clnt.Unmount() is called from another goroutine
 //   writefail  the transport refuses the a-th request (Write returns an error)
+//   stall      the peer stops reading: the Write of the a-th request blocks until the connection is closed
+//              locally, and at that moment a garbage frame arrives
 //
 // Oracle (in the final quiescent state):
 //   * every call has returned (otherwise: HANG finding listing where each goroutine is parked);
@@ -35,6 +37,7 @@ const (
 	vxFailOversize   = 4
 	vxFailUnmount    = 5
 	vxFailWrite      = 6
+	vxFailStall      = 7 // the peer stops reading (the a-th request's Write blocks until Close) and sends a garbage frame
 )
 
 const vxH10Msize = 32
@@ -92,6 +95,13 @@ func vxH10Cut(n int, a int, mode int, b int, dotu bool) {
 	if mode == vxFailWrite && a == 1 {
 		nc.failWriteAt = 0
 	}
+	if mode == vxFailStall {
+		nc.stallWrite = a - 1
+		nc.onStall = func() {
+			failed = true
+			nc.push([]byte{9, 0, 0, 0, 99, 1, 0, 0, 0})
+		}
+	}
 	peer := vxNewPeer(nc, dotu, func(p *vxPeer, r *vxPReq) {
 		if r.idx+1 < a {
 			p.send(r, p.matchingReply(r), 0)
@@ -125,7 +135,7 @@ func vxH10Cut(n int, a int, mode int, b int, dotu bool) {
 		case !answered:
 			vxAssert(c.err != nil, "no-success-without-a-complete-reply")
 			vxAssert(c.noPayload(), "failed-call-returns-no-data")
-		case mode == vxFailUnmount || mode == vxFailWrite:
+		case mode == vxFailUnmount || mode == vxFailWrite || mode == vxFailStall:
 			// either: the reply was queued before the local failure, the statement does not say it must be seen
 			if c.err == nil {
 				vxAssert(c.gotMatching(dotu), "successful-call-returns-exactly-its-own-payload")
